@@ -71,6 +71,9 @@ def gen_spec(rng, tier="quick", for_crash=False):
         micro = [t0 - 1, t0 + span + 1]
     if for_crash and rng.random() < 0.15:
         ts = [ts[0]] * n                          # all data at the same time: degenerate domain
+        if kind == "datetime" and rng.random() < 0.5:
+            ts = [int(ts[0]) + rng.choice([0.125, 0.5, 0.875, 0.999])] * n      # … at an instant that carries microseconds
+            micro = None
     if rng.random() < 0.5:
         rng.shuffle(ts)
     for t in ts:
